@@ -9,7 +9,8 @@ from concurrent.futures import ProcessPoolExecutor
 from common import Result, Machinery
 from vbcommon import World, VALID_BP_TOML, DEFAULT_TARGET_ENV, read_bytes, ensure_vb
 
-ARG0 = ["PHASE", "other", "some/dir/PHASE", "PHASE.bak"]
+# the third form is how the lifecycle invokes a buildpack: <buildpack dir>/bin/<phase>
+ARG0 = ["PHASE", "other", "BPDIR/bin/PHASE", "PHASE.bak"]
 BP_TOML = {
     "valid": VALID_BP_TOML,
     "api-0.9": VALID_BP_TOML.replace('"0.10"', '"0.9"'),
@@ -114,6 +115,11 @@ def pathvar_cfgs():
                 yield {"phase": phase, "arg0": 0, "argc": argc, "toml": "valid", "bpdir": True, "env": {k: True for k in MANDATORY}, "variant": False, "stale": False, "beh": beh, "pathvars": True}
 
 
+def vbcommon_VB():
+    import vbcommon
+    return vbcommon.VB
+
+
 def planpath_cfgs():
     for pp in (1, 2, 3, 4, 5):
         for beh in range(len(DETECT_BEH)):
@@ -167,7 +173,11 @@ def judge(w, cfg):
         env.update({"CNB_PLATFORM_DIR": w.p("platform"), "CNB_BUILD_PLAN_PATH": w.p("plan.toml"), "CNB_LAYERS_DIR": w.p("layers"), "CNB_BP_PLAN_PATH": w.p("bp_plan.toml")})
     if cfg["variant"]:
         env["CNB_TARGET_ARCH_VARIANT"] = "v8"
-    arg0 = ARG0[cfg["arg0"]].replace("PHASE", phase)
+    arg0 = ARG0[cfg["arg0"]].replace("PHASE", phase).replace("BPDIR", w.p("bp"))
+    if cfg["arg0"] == 2:
+        os.makedirs(w.p("bp", "bin"), exist_ok=True)
+        if not os.path.lexists(arg0):
+            os.symlink(vbcommon_VB(), arg0)
     full = [w.p("platform"), w.p("plan.toml")] if phase == "detect" else [w.p("layers"), w.p("platform"), w.p("bp_plan.toml")]
     # the build plan path in other spellings: a bare file name and ./name (relative to the working
     # directory = app dir), and a path whose directory does not exist
@@ -410,7 +420,7 @@ def run(ctx):
     res.cov("distinct_nontrivial", len(nontrivial))
     res.cov("distinct_outcomes", sorted(outcomes))
     res.cov("determinism_replays", 5)
-    res.cov("rule", "configurations = executable name (phase, other, path/phase, phase.bak) x argument count 0..4 x buildpack.toml (valid, valid with a declared sbom-formats list, api 0.9/0.11/1/missing, malformed, file missing, unknown key) x CNB_BUILDPACK_DIR x each mandatory CNB_TARGET_* variable x ARCH_VARIANT x behaviour (4 detect; 16 pass results x SBOM sets + error + layer error for build) x stale outputs; plus, for valid detect invocations, the plan path as a bare file name, ./name, a path in a missing directory and non-UTF-8 plan / platform paths x 4 behaviours; every argument count with the lifecycle's CNB_*_DIR/PATH variables exported; each run as a real process; plus every in-process sequence of 2 (thorough 3) programmatic detect/build calls over 12 symbols, exit status and written files of each step compared with the same call alone in a fresh process; non-trivial = configurations that reach the phase or deviate from a valid invocation in exactly one dimension")
+    res.cov("rule", "configurations = executable name (phase, other, <buildpack dir>/bin/phase, phase.bak) x argument count 0..4 x buildpack.toml (valid, valid with a declared sbom-formats list, api 0.9/0.11/1/missing, malformed, file missing, unknown key) x CNB_BUILDPACK_DIR x each mandatory CNB_TARGET_* variable x ARCH_VARIANT x behaviour (4 detect; 16 pass results x SBOM sets + error + layer error for build) x stale outputs; plus, for valid detect invocations, the plan path as a bare file name, ./name, a path in a missing directory and non-UTF-8 plan / platform paths x 4 behaviours; every argument count with the lifecycle's CNB_*_DIR/PATH variables exported; each run as a real process; plus every in-process sequence of 2 (thorough 3) programmatic detect/build calls over 12 symbols, exit status and written files of each step compared with the same call alone in a fresh process; non-trivial = configurations that reach the phase or deviate from a valid invocation in exactly one dimension")
     res.cov("bound", {"deviations_from_valid_invocation": "<=3 all behaviours" if not ctx.thorough else "full product for detect and for build up to 3 deviations; beyond that build behaviours {first,last}"})
     res.cov("exhaustive", True)
     res.sample(cfgs[0])
